@@ -3,6 +3,7 @@ package c10
 import (
 	"fmt"
 	"io/fs"
+	"sort"
 	"strings"
 	"time"
 
@@ -34,6 +35,11 @@ func revise(p cat.Program, rev int) cat.Program {
 	q := p
 	q.Files = make(map[string]string, len(p.Files))
 	for f, src := range p.Files {
+		if strings.HasSuffix(f, ".less") {
+			// an imported LESS file: other values, the importing page keeps its style block
+			q.Files[f] = strings.ReplaceAll(strings.ReplaceAll(src, "red", lessColours[rev%len(lessColours)]), "2px", fmt.Sprintf("%dpx", 3+rev))
+			continue
+		}
 		if !strings.HasSuffix(f, ".vuego") {
 			q.Files[f] = src
 			continue
@@ -46,6 +52,122 @@ func revise(p cat.Program, rev int) cat.Program {
 	return q
 }
 
+var lessColours = []string{"red", "blue", "green", "teal", "navy", "gold", "plum", "gray", "pink", "lime"}
+
+func editable(f string) bool { return strings.HasSuffix(f, ".vuego") || strings.HasSuffix(f, ".less") }
+
+// ---- overlays: files that are created and deleted between renders
+
+const (
+	overlayBase  = `<section data-l="base-overlay">OB {{ who }}<div v-html="content"></div></section>`
+	overlayLocal = `<aside data-l="local-overlay">OL {{ who }}<div v-html="content"></div></aside>`
+)
+
+// pageLayout returns the layout named by the page's front-matter, or "".
+func pageLayout(p cat.Program) string {
+	src := p.Files["page.vuego"]
+	if !strings.HasPrefix(src, "---\n") {
+		return ""
+	}
+	end := strings.Index(src[4:], "\n---")
+	if end < 0 {
+		return ""
+	}
+	for _, line := range strings.Split(src[4:4+end], "\n") {
+		if strings.HasPrefix(line, "layout: ") {
+			return strings.TrimSpace(strings.TrimPrefix(line, "layout: "))
+		}
+	}
+	return ""
+}
+
+// overlayFiles lists the files overlay extra adds to p; ok is false when extra is not defined
+// for p (the default layout exists already, the page names no layout, ...).
+func overlayFiles(p cat.Program, extra string) (map[string]string, bool) {
+	out := map[string]string{}
+	if extra == "" {
+		return out, true
+	}
+	for _, part := range strings.Split(extra, "+") {
+		switch part {
+		case "base":
+			if _, has := p.Files["layouts/base.vuego"]; has || p.Files["page.vuego"] == "" {
+				return nil, false
+			}
+			out["layouts/base.vuego"] = overlayBase
+		case "local":
+			name := pageLayout(p)
+			if name == "" || strings.ContainsAny(name, "/.") {
+				return nil, false
+			}
+			if _, has := p.Files[name+".vuego"]; has {
+				return nil, false
+			}
+			out[name+".vuego"] = overlayLocal
+		default:
+			return nil, false
+		}
+	}
+	return out, true
+}
+
+func overlayOK(p cat.Program, extra string) bool {
+	_, ok := overlayFiles(p, extra)
+	return ok
+}
+
+// withExtra is p with the overlay's files present (for the fresh-engine reference).
+func withExtra(p cat.Program, extra string) (cat.Program, error) {
+	if extra == "" {
+		return p, nil
+	}
+	add, ok := overlayFiles(p, extra)
+	if !ok {
+		return p, fmt.Errorf("overlay %q is not defined for program %s (malformed case)", extra, p.Name)
+	}
+	q := p
+	q.Files = make(map[string]string, len(p.Files)+len(add))
+	for f, src := range p.Files {
+		q.Files[f] = src
+	}
+	for f, src := range add {
+		q.Files[f] = src
+	}
+	return q, nil
+}
+
+// setExtra creates / deletes the overlay files on the seat's filesystem. An overlay file always
+// has the same content and the same mtime, so its reappearance is never an equal-mtime edit.
+func (s *seat) setExtra(extra string) (string, error) {
+	if extra == s.extra {
+		return "", nil
+	}
+	if s.fs == nil {
+		return "", fmt.Errorf("created / deleted files are only defined for programs on an engine of their own (malformed case)")
+	}
+	want, ok := overlayFiles(s.base, extra)
+	if !ok {
+		return "", fmt.Errorf("overlay %q is not defined for program %s (malformed case)", extra, s.base.Name)
+	}
+	have, _ := overlayFiles(s.base, s.extra)
+	var did []string
+	for f := range have {
+		if _, keep := want[f]; !keep {
+			s.fs.Remove(f)
+			did = append(did, "deleted "+f)
+		}
+	}
+	for f, src := range want {
+		if _, had := have[f]; !had {
+			s.fs.Write(f, src, time.Unix(mtimeBase, 0))
+			did = append(did, "created "+f)
+		}
+	}
+	sort.Strings(did)
+	s.extra = extra
+	return strings.Join(did, ", "), nil
+}
+
 // setRev brings the seat's filesystem to (rev, mt); it reports what it did.
 func (s *seat) setRev(rev, mt int) (string, error) {
 	if rev == s.rev && mt == s.mt {
@@ -56,7 +178,7 @@ func (s *seat) setRev(rev, mt int) (string, error) {
 	}
 	q := revise(s.base, rev)
 	for f, src := range q.Files {
-		if strings.HasSuffix(f, ".vuego") {
+		if editable(f) {
 			s.fs.Write(f, src, time.Unix(int64(mtimeBase+mt), 0))
 		}
 	}
@@ -104,7 +226,7 @@ func editAllowed(c Case, i int, mtimes map[string]map[int]int) error {
 	if st.Rev < 0 || st.Rev > 9 || st.Mt < -500 || st.Mt > 500 {
 		return fmt.Errorf("step %d: revision / mtime out of range (malformed case)", i+1)
 	}
-	if (c.Shared || c.Join || c.Mode == "probe") && (st.Rev != 0 || st.Mt != 0 || st.Deny != "") {
+	if (c.Shared || c.Join || c.Mode == "probe") && (st.Rev != 0 || st.Mt != 0 || st.Deny != "" || st.Extra != "") {
 		return fmt.Errorf("step %d: file edits are not defined for shared / joined / probe cases (malformed case)", i+1)
 	}
 	if mtimes[st.Prog] == nil {
@@ -133,6 +255,28 @@ func editClasses(c Case, i int, set map[string]bool) {
 			if o.Mt > maxMt {
 				maxMt = o.Mt
 			}
+		}
+	}
+	prevExtra := ""
+	for _, o := range c.Steps[:i] {
+		if o.Prog == st.Prog {
+			prevExtra = o.Extra
+		}
+	}
+	if st.Extra != prevExtra {
+		for _, part := range []string{"base", "local"} {
+			was, is := strings.Contains(prevExtra, part), strings.Contains(st.Extra, part)
+			switch {
+			case is && !was && rendered:
+				set["edit:"+part+"-layout-created-after-render"] = true
+			case is && !was:
+				set["edit:"+part+"-layout-present-from-start"] = true
+			case was && !is:
+				set["edit:"+part+"-layout-deleted"] = true
+			}
+		}
+		if st.Entry == "load" || st.Entry == "file" || st.Entry == eAssign {
+			set["edit:layout-file-change-then-template-entry"] = true
 		}
 	}
 	if st.Deny != prevDeny {
@@ -219,6 +363,17 @@ func genEdits(t *rapid.T) Case {
 			st.K = 3
 		}
 		st.Rev, st.Mt = s.rev, s.mt
+		if rapid.IntRange(0, 2).Draw(t, "extra") == 0 {
+			var defined []string
+			for _, ex := range []string{"base", "local", "base+local"} {
+				if overlayOK(s.p, ex) {
+					defined = append(defined, ex)
+				}
+			}
+			if len(defined) > 0 {
+				st.Extra = rapid.SampledFrom(defined).Draw(t, "overlay")
+			}
+		}
 		if rapid.IntRange(0, 4).Draw(t, "deny") == 0 {
 			st.Deny = rapid.SampledFrom([]string{"page", "page", "all"}).Draw(t, "which-denied")
 		}
